@@ -23,7 +23,7 @@ BUDGET = {
     'thorough': {'enum': ['k1', 'k2', 'k3', 'k4w', 'hooks', 'wc', 'tasks', 'observers', 'closed'], 'hyp': 160000, 'shards': 16},
 }
 
-ALPHABET = [['pause', 'p'], ['play'], ['kill', 'kt'], ['resume', 1], ['fail', 'f']]
+ALPHABET = [['pause', 'p'], ['play'], ['kill', 'kt'], ['resume', 1], ['fail', '']]  # (an exception with an empty message is an exception)
 GRAPH = {
     'created': {'running', 'killed', 'excepted'},
     'running': {'running', 'waiting', 'finished', 'killed', 'excepted'},
@@ -82,6 +82,10 @@ def enumerate_cases(tier, scope):
             for k in (1, 2):
                 for sched in gen.schedules([a for a in ALPHABET if a[0] != 'resume'] + gen.WC_EVENTS, k, 3):
                     yield dict(gen.base(name), schedule=sched, tag=f'wc:{name}')
+            # the same requests on a chain recreated from a checkpoint (possible where no live awaitable is pending)
+            for sched in gen.schedules([a for a in ALPHABET if a[0] != 'resume'], 1, 2):
+                yield dict(gen.base(name), schedule=[['reload']] + sched, tag=f'wc-reload:{name}')
+                yield dict(gen.base(name), schedule=[['pause', 'p'], ['tick', 1], ['reload']] + sched, tag=f'wc-reload:{name}')
         return
     if scope == 'hooks':
         for name in ('wait1', 'chain', 'async2', 'selfkill', 'failing', 'sync3'):
